@@ -178,6 +178,67 @@ fn comp<F: Flt>(d: &mut Draw) -> F {
     }
 }
 
+
+/// A second serde format for the round trip: the data model of `serde_json::Value`, but one that reports itself as *not*
+/// human readable (as CBOR, MessagePack or bincode do). serde_json alone only ever exercises the human-readable side
+/// of an implementation.
+mod binfmt {
+    use serde::de::{Deserialize, Deserializer, Visitor};
+    use serde::ser::{Serialize, Serializer};
+    use serde_json::value::Serializer as Inner;
+    use serde_json::{Error, Value};
+
+    pub struct BinSer;
+    macro_rules! scalars {
+        ($($m:ident: $t:ty,)*) => { $(fn $m(self, v: $t) -> Result<Value, Error> { Inner.$m(v) })* };
+    }
+    impl Serializer for BinSer {
+        type Ok = Value;
+        type Error = Error;
+        type SerializeSeq = <Inner as Serializer>::SerializeSeq;
+        type SerializeTuple = <Inner as Serializer>::SerializeTuple;
+        type SerializeTupleStruct = <Inner as Serializer>::SerializeTupleStruct;
+        type SerializeTupleVariant = <Inner as Serializer>::SerializeTupleVariant;
+        type SerializeMap = <Inner as Serializer>::SerializeMap;
+        type SerializeStruct = <Inner as Serializer>::SerializeStruct;
+        type SerializeStructVariant = <Inner as Serializer>::SerializeStructVariant;
+        scalars! {
+            serialize_bool: bool, serialize_i8: i8, serialize_i16: i16, serialize_i32: i32, serialize_i64: i64,
+            serialize_u8: u8, serialize_u16: u16, serialize_u32: u32, serialize_u64: u64, serialize_f32: f32, serialize_f64: f64,
+            serialize_char: char, serialize_str: &str, serialize_bytes: &[u8],
+        }
+        fn serialize_none(self) -> Result<Value, Error> { Inner.serialize_none() }
+        fn serialize_some<T: ?Sized + Serialize>(self, v: &T) -> Result<Value, Error> { Inner.serialize_some(v) }
+        fn serialize_unit(self) -> Result<Value, Error> { Inner.serialize_unit() }
+        fn serialize_unit_struct(self, n: &'static str) -> Result<Value, Error> { Inner.serialize_unit_struct(n) }
+        fn serialize_unit_variant(self, n: &'static str, i: u32, v: &'static str) -> Result<Value, Error> { Inner.serialize_unit_variant(n, i, v) }
+        fn serialize_newtype_struct<T: ?Sized + Serialize>(self, n: &'static str, v: &T) -> Result<Value, Error> { Inner.serialize_newtype_struct(n, v) }
+        fn serialize_newtype_variant<T: ?Sized + Serialize>(self, n: &'static str, i: u32, var: &'static str, v: &T) -> Result<Value, Error> { Inner.serialize_newtype_variant(n, i, var, v) }
+        fn serialize_seq(self, len: Option<usize>) -> Result<Self::SerializeSeq, Error> { Inner.serialize_seq(len) }
+        fn serialize_tuple(self, len: usize) -> Result<Self::SerializeTuple, Error> { Inner.serialize_tuple(len) }
+        fn serialize_tuple_struct(self, n: &'static str, len: usize) -> Result<Self::SerializeTupleStruct, Error> { Inner.serialize_tuple_struct(n, len) }
+        fn serialize_tuple_variant(self, n: &'static str, i: u32, v: &'static str, len: usize) -> Result<Self::SerializeTupleVariant, Error> { Inner.serialize_tuple_variant(n, i, v, len) }
+        fn serialize_map(self, len: Option<usize>) -> Result<Self::SerializeMap, Error> { Inner.serialize_map(len) }
+        fn serialize_struct(self, n: &'static str, len: usize) -> Result<Self::SerializeStruct, Error> { Inner.serialize_struct(n, len) }
+        fn serialize_struct_variant(self, n: &'static str, i: u32, v: &'static str, len: usize) -> Result<Self::SerializeStructVariant, Error> { Inner.serialize_struct_variant(n, i, v, len) }
+        fn is_human_readable(&self) -> bool { false }
+    }
+
+    pub struct BinDe(pub Value);
+    impl<'de> Deserializer<'de> for BinDe {
+        type Error = Error;
+        fn deserialize_any<V: Visitor<'de>>(self, visitor: V) -> Result<V::Value, Error> { self.0.deserialize_any(visitor) }
+        serde::forward_to_deserialize_any! {
+            bool i8 i16 i32 i64 u8 u16 u32 u64 f32 f64 char str string bytes byte_buf option
+            unit unit_struct seq tuple tuple_struct map struct enum identifier ignored_any
+        }
+        fn deserialize_newtype_struct<V: Visitor<'de>>(self, _name: &'static str, visitor: V) -> Result<V::Value, Error> { visitor.visit_newtype_struct(self) }
+        fn is_human_readable(&self) -> bool { false }
+    }
+    pub fn to_bin<T: Serialize>(value: &T) -> Result<Value, Error> { value.serialize(BinSer) }
+    pub fn from_bin<T: for<'de> Deserialize<'de>>(value: Value) -> Result<T, Error> { T::deserialize(BinDe(value)) }
+}
+
 fn bits<F: Flt>(v: F) -> u64 {
     v.f().to_bits()
 }
@@ -211,6 +272,20 @@ where
     let per: Vec<F> = c.iter().map(|f| serde_json::from_value::<F>(serde_json::to_value(f).unwrap()).unwrap()).collect();
     ensure!(per.iter().zip(c.iter()).all(|(a, b)| bits(*a) == bits(*b)), "harness-scalar-roundtrip", "scalar Value round trip is not exact");
     ensure!(back == T::build(&per) || c.iter().any(|f| f.f() != f.f()), "value-roundtrip-eq", "{}: value round trip gives {:?}, expected {:?}", T::NAME, back, x);
+    // carrier 3: a format that is not human readable - same structure, same field names, and the value comes back
+    match binfmt::to_bin(&x) {
+        Err(e) => return Outcome::Fail { sig: "serialize-error-binary", msg: format!("{}: serializing into a non-human-readable format failed: {}", T::NAME, e) },
+        Ok(vb) => {
+            ensure!(vb == want && value_bits(&vb) == value_bits(&want), "structure-binary", "{} serializes into a non-human-readable format as {}, expected {}", T::NAME, vb, want);
+            match binfmt::from_bin::<T>(vb.clone()) {
+                Err(e) => return Outcome::Fail { sig: "deserialize-error-binary", msg: format!("{}: reading {} back from a non-human-readable format failed: {}", T::NAME, vb, e) },
+                Ok(bb) => {
+                    let again = serde_json::to_value(&bb).unwrap();
+                    ensure!(value_bits(&again) == value_bits(&want), "binary-roundtrip", "{}: round trip through a non-human-readable format gives {}, expected {}", T::NAME, again, want);
+                }
+            }
+        }
+    }
     // carrier 2: text
     let text = serde_json::to_string(&x).unwrap();
     let text_tree: Value = serde_json::from_str(&text).unwrap();
